@@ -201,7 +201,44 @@ fn c13_known_shape(c: &Case) -> bool {
         || (c.opts.indent == 1 && ds::depth(&c.val) >= 2)
 }
 
+/// The wrapper types themselves (not the run-time `SD` serializer): one fixed document through
+/// the derived impls. Marked by the decoration index `CONCRETE` in a case.
+const CONCRETE: usize = 999_999;
+fn concrete_round_trip() -> Result<(), String> {
+    // concrete wrapped types: into the wrapped type
+    let mut m = std::collections::BTreeMap::new();
+    m.insert("k".to_string(), 1i64);
+    let mut g = std::collections::BTreeMap::new();
+    g.insert("a".to_string(), "b".to_string());
+    let v = Concrete {
+        seq: serde_saphyr::FlowSeq(vec![1, 2]),
+        map: serde_saphyr::FlowMap(m),
+        note: serde_saphyr::Commented("text".into(), "a comment".into()),
+        gap: serde_saphyr::SpaceAfter(g),
+        lit: serde_saphyr::LitString("l1\nl2\n".into()),
+        fold: serde_saphyr::FoldString("folded words\n".into()),
+        nested: serde_saphyr::SpaceAfter(serde_saphyr::Commented(serde_saphyr::FlowSeq(vec!["x".into()]), "c".into())),
+        tail: 9,
+    };
+    let text = serde_saphyr::to_string(&v).map_err(|e| e.to_string())?;
+    let back: Concrete = serde_saphyr::from_str(&text).map_err(|e| format!("concrete wrapped types rejected: {e} ({text:?})"))?;
+    // comments are not read back
+    let mut want = v.clone();
+    want.note.1.clear();
+    want.nested.0 .1.clear();
+    if back != want {
+        return Err(format!("concrete wrapped types read back as {back:?} ({text:?})"));
+    }
+    Ok(())
+}
+
 fn check_case(c: &Case) -> Outcome {
+    if c.decor.first().is_some_and(|d| d.0 == CONCRETE) {
+        return match concrete_round_trip() {
+            Ok(()) => Outcome::Pass,
+            Err(m) => Outcome::Fail(m),
+        };
+    }
     if ds::has_colliding_keys(&c.val) {
         // (not a document of the domain: two keys that are one key node for the reader)
         return Outcome::Discard("colliding-keys");
@@ -289,7 +326,9 @@ const COMMENTS: [&str; 14] = [
     "plain comment", "# hash", "a\nb: 2", "x\ry: 2", "nel\u{85}z: 1", "ls\u{2028}k: v", "- item", "key: value", "'quote\" mix", "", " lead and trail ",
     "tab\there", "nul\0byte", "very long comment very long comment very long comment very long comment very long comment very long comment very long comment",
 ];
-const BLOCK_STRINGS: [&str; 23] = [
+const BLOCK_STRINGS: [&str; 26] = [
+    // (nothing but line breaks, two and more: these do round-trip, unlike "" and "\n")
+    "\n\n", "\n\n\n", "\n\n\n\n",
     // (tabs next to the blanks at which a folded line may be broken)
     "aaaa bbbb \tcccc dddd eeee ffff", "\taaaa bbbb cccc dddd eeee", "aaaa\t bbbb cccc\t\tdddd eeee", "aa \t \tbb cc dd ee ff gg hh ii\n",
     // (single lines that start with blanks and are longer than the smaller wrap widths)
@@ -383,7 +422,7 @@ impl Property for C20 {
             let s = strings.iter().find(|(j, _)| j == i).map(|(_, s)| *s);
             for w in ws {
                 match (w, s) {
-                    (W::Lit, Some(s)) | (W::Fold, Some(s)) if s.trim_end_matches('\n').is_empty() => v.push("litstr_only_newline"),
+                    (W::Lit, Some(s)) | (W::Fold, Some(s)) if s.is_empty() || s == "\n" => v.push("litstr_only_newline"),
                     (W::Fold, Some(s)) => {
                         // documented: `>` folds inner line breaks (more than the trailing one)
                         let body = s.strip_suffix('\n').unwrap_or(s);
@@ -439,30 +478,6 @@ impl Property for C20 {
     }
     fn selfcheck() -> Result<(), String> {
         vcheck::dynschema_selfcheck::run()?;
-        // concrete wrapped types: into the wrapped type
-        let mut m = std::collections::BTreeMap::new();
-        m.insert("k".to_string(), 1i64);
-        let mut g = std::collections::BTreeMap::new();
-        g.insert("a".to_string(), "b".to_string());
-        let v = Concrete {
-            seq: serde_saphyr::FlowSeq(vec![1, 2]),
-            map: serde_saphyr::FlowMap(m),
-            note: serde_saphyr::Commented("text".into(), "a comment".into()),
-            gap: serde_saphyr::SpaceAfter(g),
-            lit: serde_saphyr::LitString("l1\nl2\n".into()),
-            fold: serde_saphyr::FoldString("folded words\n".into()),
-            nested: serde_saphyr::SpaceAfter(serde_saphyr::Commented(serde_saphyr::FlowSeq(vec!["x".into()]), "c".into())),
-            tail: 9,
-        };
-        let text = serde_saphyr::to_string(&v).map_err(|e| e.to_string())?;
-        let back: Concrete = serde_saphyr::from_str(&text).map_err(|e| format!("concrete wrapped types rejected: {e} ({text:?})"))?;
-        // comments are not read back
-        let mut want = v.clone();
-        want.note.1.clear();
-        want.nested.0 .1.clear();
-        if back != want {
-            return Err(format!("concrete wrapped types read back as {back:?} ({text:?})"));
-        }
         Ok(())
     }
     /// libFuzzer input: option bits, decoration density and script, then type and value
@@ -481,6 +496,10 @@ impl Property for C20 {
     }
     fn generate(ctx: &mut Ctx<Self>) {
         let fam = SerOpts::family();
+        if ctx.worker == 0 {
+            let c = Case { ty: Ty::Unit, val: DV::Unit, decor: vec![(CONCRETE, vec![])], opts: SerOpts::default() };
+            ctx.case("concrete-wrapper-types", &c, true);
+        }
         // (a) every comment on every scalar kind in 4 positions
         let scalars: Vec<(Ty, DV)> = vec![
             (Ty::Int, DV::Int(5)),
